@@ -3,7 +3,7 @@ import json, os
 V = os.path.dirname(os.path.dirname(os.path.abspath(__file__)))
 import importlib, sys
 sys.path.insert(0, V)
-CLAIMED_IDS = ["C01", "C02", "C03", "C04", "C05", "C06", "C07", "C08", "C10", "C11", "C12", "C13", "C14", "C15", "C16", "C17", "C18", "C19", "C20"]
+CLAIMED_IDS = ["C01", "C02", "C03", "C04", "C05", "C06", "C07", "C08", "C09", "C10", "C11", "C12", "C13", "C14", "C15", "C16", "C17", "C18", "C19", "C20"]
 CLAIMED = {pid: importlib.import_module(f"harness.props.{pid.lower()}").MANIFEST for pid in CLAIMED_IDS}
 def main():
     props = [json.loads(l) for l in open(os.path.join(V, "properties.jsonl"))]
